@@ -173,6 +173,44 @@ pub fn run(opts: &Opts, out: &mut Emitter) {
         let idx = match r.below(3) { 0 => 0u32, 1 => r.below(10) as u32, _ => u32::MAX };
         emit_fj(out, "utxoref", json!(format!("{}#{}", hx(&txid), idx)), Type::UtxoRef, json!({"utxoRef": [hx(&txid), idx]}));
     }
+    // bare JSON number literals as they arrive in a request body (text → serde_json → from_json): the
+    // coerced integer must be the literal's value, or the value must be rejected
+    let lits: Vec<String> = {
+        let mut v: Vec<String> = vec![];
+        let two64: i128 = 1 << 64;
+        for d in [-2i128, -1, 0, 1, 2] {
+            v.push((two64 + d).to_string());
+            v.push((-(two64) + d).to_string());
+            v.push(((1i128 << 63) + d).to_string());
+            v.push((-(1i128 << 63) + d).to_string());
+            v.push(((1i128 << 53) + d).to_string());
+        }
+        v.push(i128::MAX.to_string());
+        v.push(i128::MIN.to_string());
+        v.push("170141183460469231731687303715884105728".into()); // 2^127
+        v.push("340282366920938463463374607431768211456".into()); // 2^128
+        v.push("123456789012345678901234567890".into());
+        v.push("-123456789012345678901234567890".into());
+        v.push("1e3".into());
+        v.push("2.0".into());
+        v.push("-0".into());
+        v.push("1E20".into());
+        v.push("18446744073709551617.0".into());
+        for _ in 0..opts.n.min(400) {
+            let x = boundary_i128(&mut r);
+            v.push(x.to_string());
+        }
+        v
+    };
+    for lit in &lits {
+        for ty in [Type::Int, Type::Undefined] {
+            let parsed: Result<Value, _> = serde_json::from_str(lit);
+            if let Ok(v) = parsed {
+                out.case("int:json-literal", || json!({"probe": "from_json", "val": tag_value(&v), "ty": ty_json(&ty), "expect": Value::Null,
+                    "literal": lit, "obs": from_json_obs(&v, &ty)}));
+            }
+        }
+    }
     // ill-formed values and random JSON against every type
     let types = [Type::Int, Type::Bool, Type::Bytes, Type::Address, Type::UtxoRef, Type::Undefined, Type::List, Type::Custom("X".into())];
     let fixed: Vec<Value> = vec![
